@@ -494,6 +494,7 @@ type Node struct {
 	ValidRej bool       `json:"validrej,omitempty"` // a validity closure that REJECTS the node (stacks and Conditions), installed after assembly
 	EqPol    int        `json:"eqpol,omitempty"`    // equality closure on this node: 1 accepts everything, 2 rejects everything (stacks and Conditions)
 	Amb      int        `json:"amb,omitempty"`      // ambient, semantically neutral settings (AmbXxx bits), applied after the elements are in
+	Past     int        `json:"past,omitempty"`     // an earlier state the node went through before it reached the described one: stacks (LIFO): (Past+1)/2 values pushed and popped again, before (odd) or after (even) the elements went in; Conditions: 1/2/3 = the expression was a Stack / a text / a Condition before the described one was assigned
 	Elems    []Node     `json:"elems,omitempty"`
 
 	// cond (also uses Paren, NoPad, NoNest, Encap, Wrap)
@@ -798,8 +799,26 @@ func buildStack(n Node, o BuildOpts) stackage.Stack {
 		s.SetMutex()
 	}
 	// push one at a time so that no batch semantics interfere
+	// Past (LIFO stacks): (Past+1)/2 values are pushed and popped again - before the elements go in when Past is
+	// odd (their slots are re-used by the elements), after them when it is even (their slots lie beyond the content)
+	past := func() {
+		pushed := 0
+		for i := 0; i < (n.Past+1)/2 && !s.IsFull(); i++ {
+			s.Push("past" + itoa(i))
+			pushed++
+		}
+		for ; pushed > 0; pushed-- {
+			s.Pop()
+		}
+	}
+	if n.Past > 0 && n.Past%2 == 1 && !n.FIFO {
+		past()
+	}
 	for _, e := range n.Elems {
 		s.Push(BuildWith(e, o))
+	}
+	if n.Past > 0 && n.Past%2 == 0 && !n.FIFO {
+		past()
 	}
 	if n.NoNest {
 		s.SetNoNesting(true)
@@ -833,7 +852,19 @@ func buildCond(n Node, o BuildOpts) stackage.Condition {
 		c.SetOperator(op)
 	}
 	if n.Expr != nil {
-		c.SetExpression(BuildWith(*n.Expr, o))
+		v := BuildWith(*n.Expr, o)
+		if str, isStr := v.(string); n.Past > 0 && v != nil && !(isStr && str == "") {
+			// the Condition held something else before (only when the described expression is one that is accepted)
+			switch n.Past {
+			case 1:
+				c.SetExpression(stackage.And().Push("old0", "old1", "old2"))
+			case 2:
+				c.SetExpression("old text")
+			default:
+				c.SetExpression(stackage.Cond("oldkw", stackage.Ne, stackage.Or().Push("old0", "old1")))
+			}
+		}
+		c.SetExpression(v)
 	}
 	setTri(c.SetParen, n.Paren, n.OptForm)
 	setTri(c.SetNoPadding, n.NoPad, n.OptForm)
